@@ -811,7 +811,7 @@ fn c13(a: &Args) -> Report {
             sp.restart_at_end = false;
             sp.keys = vec![0, 7];
             sp.bound = 2;
-            sp.max_execs = if thorough { 30_000 } else { 1_000 };
+            sp.max_execs = if thorough { 30_000 } else { 1_300 };
             sp.read_points = false;
             sspecs.push(sp);
         }
